@@ -88,6 +88,11 @@ func (alg *algorithm) GenerateIV() ([]byte, error) {
 }
 
 func (alg *algorithm) Decrypt(cek, iv, aad, ciphertext, authTag []byte) (plaintext []byte, err error) {
+	// verify parameters
+	if len(iv) != nonceSize {
+		return nil, fmt.Errorf("agcm: the size of IV must be %d bytes, but got: %d", nonceSize, len(iv))
+	}
+
 	// decrypt
 	block, err := aes.NewCipher(cek)
 	if err != nil {
